@@ -74,4 +74,14 @@ var props = map[string]propDef{
 		Thorough:       budget{Runs: 20000, Chunk: 100, Wall: 40 * time.Minute, PerChunkGrace: 5 * time.Minute},
 		MinimiseBudget: 60 * time.Second,
 	},
+	"C07": {
+		Binary: "dsim-store", Harness: "C07", Level: "exploration",
+		Rule: "each run = one seeded history on a file-manifest or journaling store with a tiny memtable (flushes at arbitrary points): puts of chunks whose child lists point to committed, pending or never-written addresses, commits with right and stale expected roots, commits of earlier chunks, table files built in a side store and handed over through WriteTableFile + AddTableFilesToManifest, rebase, clean reopen. After every commit, reopen and table-file addition an independent second instance opens the directory, its root must be the model's, and a reachability walk over the store's own bytes must find every address; a commit the model knows to dangle must be rejected without moving the persisted root, and after a rejection a well-formed commit must succeed. One evaluation = one verification of the persisted state. A run is non-trivial iff at least one dangling commit or table file was rejected; distinct = distinct operation/outcome signatures among those.",
+		Assumptions: []string{"a rejection that the model did not predict (the store being stricter) is a probe, not a violation", "shallow-clone ghost commits are not exercised"},
+		Real:        storeReal, Stub: storeStub, Persistence: "not used (clean restarts only)",
+		ExpectProbes:   []string{"commit_ok", "dangling-commit-rejected", "recovered_after_rejection", "table-file-added", "dangling-table-file-rejected", "clean-restart", "cas-failure"},
+		Quick:          budget{Runs: 400, Chunk: 25, Wall: 150 * time.Second, PerChunkGrace: 120 * time.Second},
+		Thorough:       budget{Runs: 30000, Chunk: 100, Wall: 40 * time.Minute, PerChunkGrace: 5 * time.Minute},
+		MinimiseBudget: 60 * time.Second,
+	},
 }
